@@ -608,6 +608,8 @@ def run(ctx):
         hook, got = p[6], p[7]
         if hook.startswith("!"):
             ok = got.startswith("!") or got == "-"
+        elif lexical(unhex(hook)) == lexical(unhex(p[4])):
+            ok = True       # the file requires itself: the bundler reports the cycle
         else:
             bundle_found += 1
             ok = (not got.startswith("!")) and got != "-" and \
